@@ -38,6 +38,18 @@ theorem inv_removeStale {U : Tx → Prop} (hw : WF U) {mp : Pool} (hi : Inv U mp
     Inv U (removeStale mp isOK feer) ∧ (removeStale mp isOK feer).txs.Sublist mp.txs :=
   ⟨(Mempool.inv_removeStale hw hi isOK feer hF).1, (Mempool.inv_removeStale hw hi isOK feer hF).2.1⟩
 
+/-- `RemoveStale` with the resend bookkeeping (any `resendThreshold`, any block heights): the invariant still
+holds — in particular the Conflicts index is rebuilt for every kept transaction, resent or not — and the
+resend callback is called exactly for the kept transactions whose age is `resendThreshold * 2^k` blocks,
+in list order. -/
+theorem removeStale_resend {U : Tx → Prop} (hw : WF U) {mp : Pool} (hi : Inv U mp) (isOK : Tx → Bool) (feer : Feer)
+    (hF : FeerOk feer) :
+    Inv U (removeStale mp isOK feer) ∧
+    (removeStale mp isOK feer).resent
+      = ((removeStale mp isOK feer).txs.filter
+          (fun t => dueForResend mp.resendThreshold feer.height (mp.stamp t.id))).map (·.id) :=
+  ⟨(Mempool.inv_removeStale hw hi isOK feer hF).1, (removeStale_resent mp isOK feer).1⟩
+
 /-- `Verify` preserves the invariant (it may only fill the balance cache). -/
 theorem inv_verify {U : Tx → Prop} (hw : WF U) {mp : Pool} (hi : Inv U mp) {t : Tx} (ht : U t) (feer : Feer)
     (hF : FeerOk feer) :
@@ -279,6 +291,11 @@ example (q : Payer) : sumFees q (run 3 demoOps).txs ≤ F'.balance q.1 q.2 :=
     [.add a0 F, .add b0 F, .add a1 F, .add c0 F, .verify c1 F, .add c1 F, .remove 1, .removeStale (fun _ => true) F']
     [.add b0 F'] F' demo_in (by intro op hop; simp at hop; subst hop; rfl)
     (Or.inr ⟨[.add a0 F, .add b0 F, .add a1 F, .add c0 F, .verify c1 F, .add c1 F, .remove 1], fun _ => true, rfl⟩) q
+-- removeStale_resend: threshold 1, c1 (Conflicts = [a0]) pooled at height 10, block 11 arrives: c1 is kept,
+-- resent, and still blocks a0 through the rebuilt Conflicts index
+example :
+    let mp := run 3 [.setResendThreshold 1, .add c1 { F with height := 10 }, .removeStale (fun _ => true) { F with height := 11 }]
+    (mp.txs.map (·.id), mp.resent, hasConflicts mp a0) = ([4], [4], true) := by decide
 -- insert_keeps_sorted: a transaction that lands in the middle
 example : insertIdx [c1, c0, a0] { c0 with id := 9, netFee := 200 } = 2 := by decide
 
